@@ -11,7 +11,7 @@ func init() { core.Register("C22", "model_checking", run) }
 
 func run(c *core.C) {
 	n := core.Pick(c, 6, 8)
-	d := core.Pick(c, 0, 1)
+	d := core.Pick(c, 0, 2)
 	or := tmworld.Oracles{C22: true}
 	mk := func(p tmworld.Params, adv, rec int) *tmworld.Scenario {
 		return tmworld.New(tmworld.Config{P: p, MaxAdv: adv, MaxRec: rec, Mis: false}, or)
@@ -31,7 +31,7 @@ func run(c *core.C) {
 		obs, f := tmworld.ProbeSpellingHeight(c.T)
 		c.Set("probe_height_spelling_clientState", obs)
 		if f != nil {
-			c.Violation("spelling-height/"+f.Key, f.Text, map[string]any{"height": "6515817-7308895158390912101"})
+			c.Violation("spelling-height/"+f.Key, f.Text, map[string]any{"height": "iteration key bytes spell clientState"})
 		}
 	}
 	c.Set("neighbour_probes", "GetNextConsensusState / GetPreviousConsensusState at every height from Base to Base+N+2 of the chain's revision, at heights 0, 1 and 2^64-1 of that revision, at (0,0), (rev-1, 2^64-1), (rev+1, 0) and (2^64-1, 2^64-1), in every state")
